@@ -16,6 +16,8 @@ PP = z3.Function("stored_parent_path", Ref, LST.sort())  # parent path of a sche
 ANC = z3.Function("is_ancestor_or_self", Ref, Ref, B)  # p occurs in PP(s)
 IDX = z3.Function("position_in_parent_path", Ref, Ref, I)
 
+W0 = z3.Function("used_descendant_witness_before", Ref, Ref)  # skolem witness of "every tracked schema is an ancestor of a used one" in the entry state
+
 T_PLUGIN = "plugin system: the parent path of a schema is a duplicate-free list ending in the schema itself, and the parent path of each of its members is the corresponding prefix (single inheritance chain); PluginRef equality/hash are by key (C16), so dict/set lookups are lookups by value"
 
 
@@ -47,6 +49,20 @@ def index_inv(S_has, parents: SMap, children: SMap, tag, witness):
     par_p = SSeq(RT, parents.get_term(p))
     return [
         ("tracked-are-ancestors-of-used", z3.ForAll([p], z3.Implies(parents.has(p), z3.And(S_has(witness(p)), ANC(p, witness(p)))))),
+        ("ancestors-of-used-are-tracked", z3.ForAll([p, s], z3.Implies(z3.And(S_has(s), ANC(p, s)), parents.has(p)))),
+        ("parents-entry-is-the-parent-path", z3.ForAll([p], z3.Implies(parents.has(p), z3.And(par_p.n == pp_len(p), z3.ForAll([j], z3.Implies(z3.And(0 <= j, j < pp_len(p)), par_p.at_term(j) == pp_at(p, j))))))),
+        ("same-keys", z3.ForAll([p], children.has(p) == parents.has(p))),
+        ("children-are-the-used-descendants", z3.ForAll([p, c], z3.Implies(parents.has(p), z3.Select(children.get_term(p), c) == z3.And(S_has(c), c != p, ANC(p, c))))),
+    ]
+
+
+def index_inv_post(S_has, parents: SMap, children: SMap, tag):
+    """index_inv with the witness existentially quantified (goal form)"""
+    p, c, s = (z3.Const(fresh_name(tag + n), Ref) for n in "pcs")
+    j = z3.Int(fresh_name(tag + "j"))
+    par_p = SSeq(RT, parents.get_term(p))
+    return [
+        ("tracked-are-ancestors-of-used", z3.ForAll([p], z3.Implies(parents.has(p), z3.Exists([s], z3.And(S_has(s), ANC(p, s)))))),
         ("ancestors-of-used-are-tracked", z3.ForAll([p, s], z3.Implies(z3.And(S_has(s), ANC(p, s)), parents.has(p)))),
         ("parents-entry-is-the-parent-path", z3.ForAll([p], z3.Implies(parents.has(p), z3.And(par_p.n == pp_len(p), z3.ForAll([j], z3.Implies(z3.And(0 <= j, j < pp_len(p)), par_p.at_term(j) == pp_at(p, j))))))),
         ("same-keys", z3.ForAll([p], children.has(p) == parents.has(p))),
@@ -117,9 +133,29 @@ class UpdatePC(FnSpec):
         a = A(self=o, schema_ref=r, removing=removing)
         a.parents = None if removing else SSeq(RT, PP(r.t))  # _register passes schemas.parent_path(...) = the stored path
         a.parents0, a.children0, a.schemas0 = o.fields["_parents"].snapshot(), o.fields["_children"].snapshot(), o.fields["_schemas"].snapshot()
-        a.w0 = z3.Function("witness_before", Ref, Ref)
+        a.w0 = W0
         cx.ghost["upc"] = a
         return a
+
+    # callee side (TOCSchemas._register / _unregister): the caller proves the index invariant for the entry state
+    def bind_call(self, interp, cx, f, args, kwargs):
+        a = FnSpec.bind_call(self, interp, cx, f, args, kwargs)
+        a.removing = a.parents is None
+        o = a.self
+        a.parents0, a.children0, a.schemas0 = o.fields["_parents"].snapshot(), o.fields["_children"].snapshot(), o.fields["_schemas"].snapshot()
+        a.w0 = W0
+        if not a.removing:
+            ps = a.parents
+            if not (isinstance(ps, SSeq) and z3.eq(z3.simplify(ps.t), z3.simplify(PP(a.schema_ref.t)))):
+                from pyvc.values import Unsupported
+
+                raise Unsupported("_update_parents_children called with something else than the parent path of the schema")
+        return a
+
+    def effects(self, cx, a):
+        o = a.self
+        o.fields["_parents"].havoc_inplace(cx, "parents_after_upc")
+        o.fields["_children"].havoc_inplace(cx, "children_after_upc")
 
     def requires(self, cx, a):
         o = a.self
